@@ -262,6 +262,7 @@ CHANNELS = [
     # name, input_format, compression, layout
     ("nt_raw", "nt", None, "raw"),
     ("nt_raw_nofinalnl", "nt", None, "raw-nonl"),
+    ("nt_raw_zipmode", "nt", "zip", "raw"),
     ("nt_file", "nt", None, "file"),
     ("nt_file_blankline", "nt", None, "file-blank"),
     ("nt_gz", "nt", "gz", "file"),
@@ -272,21 +273,26 @@ CHANNELS = [
     ("nt_files_gz", "nt", "gz", "files"),
     ("nt_zip_members", "nt", "zip", "zipn"),
     ("nt_zips", "nt", "zip", "zips"),
+    ("nt_zip_nested", "nt", "zip", "zipn-nested"),
+    ("nt_zips_nested", "nt", "zip", "zips-nested"),
     ("tsv_raw", "tsv_spo", None, "raw"),
     ("tsv_file", "tsv_spo", None, "file"),
     ("tsv_file_blankline", "tsv_spo", None, "file-blank"),
     ("tsv_xz", "tsv_spo", "xz", "file"),
     ("tsv_files", "tsv_spo", None, "files"),
     ("tsv_zip_members", "tsv_spo", "zip", "zipn"),
+    ("tsv_zip_nested", "tsv_spo", "zip", "zipn-nested"),
     ("ttli_raw", "turtle_iter", None, "raw"),
     ("ttli_file", "turtle_iter", None, "file"),
     ("ttli_gz", "turtle_iter", "gz", "file"),
     ("ttli_files", "turtle_iter", None, "files"),
     ("turtle_file", "turtle", None, "file"),
     ("turtle_raw", "turtle", None, "raw"),
+    ("turtle_raw_gzmode", "turtle", "gz", "raw"),
     ("turtle_gz", "turtle", "gz", "file"),
     ("turtle_files", "turtle", None, "files"),
     ("turtle_zip_members", "turtle", "zip", "zipn"),
+    ("turtle_zip_nested", "turtle", "zip", "zipn-nested"),
     ("xml_file", "xml", None, "file"),
     ("jsonld_file", "json-ld", None, "file"),
     ("n3_file", "n3", None, "file"),
@@ -294,6 +300,7 @@ CHANNELS = [
     ("turtle_url", "turtle", None, "url"),
     ("turtle_urls", "turtle", None, "urls"),
     ("rdflib_graph", "nt", None, "graph"),
+    ("rdflib_graph_zipmode", "nt", "zip", "graph"),
 ]
 STABLE = {"nt", "tsv_spo", "turtle_iter"}      # + the rdflib Graph object
 
@@ -319,6 +326,10 @@ def doc_for(fmt, ts):
 def build_channel(ch, ts, r, d):
     """writes the files of one channel; returns {'kw': Shaper source kwargs, 'src': model source rows, ...}"""
     name, fmt, cm, layout = ch
+    # "-nested": the archive of a zipped folder -- a directory entry first (namelist() lists it; opening it
+    # gives an empty member) and members whose names hold '/'
+    nested = layout.endswith("-nested")
+    layout = layout[:-len("-nested")] if nested else layout
     ext = {"nt": "nt", "tsv_spo": "tsv", "turtle_iter": "ttl", "turtle": "ttl", "xml": "xml", "json-ld": "json",
            "n3": "n3"}[fmt]
     info = {"name": name, "fmt": fmt, "cm": cm, "layout": layout, "gz": [], "xz": [], "zip": [], "pieces": []}
@@ -328,6 +339,8 @@ def build_channel(ch, ts, r, d):
     parts_ok = layout in ("files", "zipn", "zips", "urls")
     if parts_ok:
         parts = partition(ts, r, 4, allow_empty=(fmt in ("nt", "tsv_spo")))
+        if nested and len(parts) == 1 and len(ts) > 1:
+            parts = [ts[:len(ts) // 2], ts[len(ts) // 2:]]
     else:
         parts = [ts]
     docs = [doc_for(fmt, p).encode("utf-8") for p in parts]
@@ -381,6 +394,11 @@ def build_channel(ch, ts, r, d):
         info["kind"] = "files"
     elif layout in ("zip1", "zipn"):
         members = [("m%d.%s" % (i, ext), data) for i, data in enumerate(docs)]
+        if nested:
+            members = [("graph/", b"")] + [(("graph/sub/" if i % 2 else "graph/") + nm, data)
+                                           for i, (nm, data) in enumerate(members)]
+            if r.random() < 0.5:         # a flat member next to the folder
+                members[1] = (members[1][0].split("/")[-1], members[1][1])
         path = os.path.join(d, "%s.zip" % name)
         st = write_zip(path, members)
         info["zip"].append((st, members))
@@ -397,6 +415,8 @@ def build_channel(ch, ts, r, d):
         paths, info["src"] = [], []
         for gi, grp in enumerate(groups):
             members = [("a%d_m%d.%s" % (gi, i, ext), docs[i]) for i in grp]
+            if nested:
+                members = [("d%d/" % gi, b"")] + [("d%d/%s" % (gi, nm), data) for nm, data in members]
             path = os.path.join(d, "%s_%d.zip" % (name, gi))
             st = write_zip(path, members)
             info["zip"].append((st, members))
@@ -948,6 +968,9 @@ def check_rdflib_terms():
 # one generated graph through every channel
 # --------------------------------------------------------------------------
 
+_KNOWN_RCS = set()        # root-cause tags of the findings listed as known (set by run() before the pool forks)
+
+
 def nontrivial_graph(ts):
     sizes = pipe.class_sizes(ts, TAU)
     return bool(sizes) and max(sizes.values()) >= 2 and any(p != TAU for _, p, _ in ts)
@@ -1007,7 +1030,7 @@ def run_case(case):
             elif res[0] == "ok":
                 if bn and not stable:
                     out["excluded_bnode"] += 1
-                    if compare_evidence(e_ref, evidence(res, cfg), rcs, cfg):
+                    if compare_evidence(e_ref, evidence(res, cfg), rcs, cfg) and "rc_bnode_relabel_per_pass" in _KNOWN_RCS:
                         out["known"]["rc_bnode_relabel_per_pass"] = out["known"].get("rc_bnode_relabel_per_pass", 0) + 1
                 else:
                     out["compared"] += 1
@@ -1019,10 +1042,15 @@ def run_case(case):
             elif res[1] != ref[1]:
                 fails.append("exception class differs: reference %s, channel %s" % (ref[1], res[1]))
             if fails:
+                rc = None
                 if ch[1] == "tsv_spo" and ch[3] == "file-blank" and res[0] == "err" and res[1] == "TypeError":
-                    out["known"]["rc_tsv_discarded_line_crashes"] = out["known"].get("rc_tsv_discarded_line_crashes", 0) + 1
+                    rc = "rc_tsv_discarded_line_crashes"
                 elif at and not line:
-                    out["known"]["rc_at_in_plain_literal"] = out["known"].get("rc_at_in_plain_literal", 0) + 1
+                    rc = "rc_at_in_plain_literal"
+                elif ch[2] is not None and ch[3] in ("raw", "graph") and res[0] == "err" and res[1] == "TypeError":
+                    rc = "rc_zip_nonfile_source"
+                if rc in _KNOWN_RCS:
+                    out["known"][rc] = out["known"].get(rc, 0) + 1
                 else:
                     out["spec_fail"].append({"channel": name, "what": fails[0][:600], "partition": info["parts"]})
             # ---- the graph is read twice by two independently built yielders
@@ -1064,8 +1092,8 @@ def run_case(case):
                     if not p_["done"]:
                         continue
                     out["monitored"] += 1
-                    if at:
-                        continue        # finding C08-F1 changes the datatype on these channels
+                    if at and "rc_at_in_plain_literal" in _KNOWN_RCS:
+                        continue        # while finding C08-F1 is open it changes the datatype on these channels
                     # several documents: each one is parsed on its own (its own permutation and renaming)
                     segs, pos, good = [], 0, sum(info["parts"]) == len(p_["triples"])
                     for part in info["part_triples"]:
@@ -1139,6 +1167,27 @@ def replay_finding(f):
         shutil.rmtree(d, ignore_errors=True)
 
 
+def corpus_failures():
+    """regression cases of repaired findings (corpus/C08/*.json): the defect must not reproduce"""
+    d = os.path.join(core.VERIF, "corpus", PID)
+    bad, n = [], 0
+    if os.path.isdir(d):
+        for fn in sorted(os.listdir(d)):
+            if not fn.endswith(".json"):
+                continue
+            with open(os.path.join(d, fn)) as fh:
+                c = json.load(fh)
+            n += 1
+            try:
+                again = replay_finding(c)
+            except Exception as e:  # noqa: BLE001
+                again = True
+                c = dict(c, crashed="%s: %s" % (type(e).__name__, e))
+            if again:
+                bad.append(dict(c, file=fn))
+    return n, bad
+
+
 def pipeprops_tuplify(ts):
     return [(tuple(s), p, tuple(o)) for s, p, o in ts]
 
@@ -1157,6 +1206,8 @@ def run(tier, seed, replay=None):
     findings = {f["id"]: f for f in core.load_findings(PID)}
     known_rc = {f["root_cause_tag"]: fid for fid, f in findings.items()
                 if f.get("status") == "known" and f.get("root_cause_tag")}
+    global _KNOWN_RCS
+    _KNOWN_RCS = set(known_rc)
     os.makedirs(BASE, exist_ok=True)
     t0 = time.time()
     internal = []
@@ -1180,11 +1231,20 @@ def run(tier, seed, replay=None):
         else:
             run_.notes.append("finding %s no longer reproduces on its pinned input" % fid)
 
+    # ---- regression cases of the repaired findings, replayed first
+    n_corpus, corpus_bad = (0, []) if replay else corpus_failures()
+    for c in corpus_bad[:3]:
+        run_.violation("C08 fails on the implementation: regression case %s (%s) reproduces again" % (c["file"], c["id"]),
+                       {"corpus_case": c, "reproducer": c["reproducer"]})
+
     # ---- cases
     if replay:
         with open(replay) as fh:
             rp = json.load(fh)
         cases = []
+        if "reproducer" in rp and replay_finding(rp):
+            run_.violation("C08 fails on the implementation: the recorded reproducer fails again",
+                           {"reproducer": rp["reproducer"]})
         if "case" in rp:
             c = rp["case"]
             cases = [{"ts": pipeprops_tuplify(c["ts"]), "cfg": c["cfg"], "stream": c.get("stream", 0), "seed": c["seed"],
@@ -1263,7 +1323,7 @@ def run(tier, seed, replay=None):
     for case, sf in spec_fail[:5]:
         run_.violation("C08 fails on the implementation: channel %s vs raw N-Triples: %s" % (sf["channel"], sf["what"][:300]),
                        case_payload(case, {"oracle_failure": sf}))
-    if not spec_fail:
+    if not spec_fail and not corpus_bad:
         if corr_fail or corr_static or assume_fail:
             if corr_fail:
                 case, cf = corr_fail[0]
@@ -1352,6 +1412,7 @@ def run(tier, seed, replay=None):
         "monitored_assumption_checks": tot["monitored"],
         "outcome_distribution": outcomes,
         "known_finding_hits": known_hits,
+        "corpus_cases_replayed_first": n_corpus,
         "plumbing_correspondence": static,
         "vm_compute_crosschecked": vm_n,
         "disagreements_model_vs_impl": len(corr_fail) + len(corr_static),
